@@ -65,12 +65,20 @@ def check(run):
         run.findings.append(Finding("C16.py.native_integer_matrix", "int-dtype", f"integer-typed data matrix: {p}", {"language": "python", "inputs": inp, "oracle_verdict": p}, True))
     # precise sensors and a quiet process (variances 1e-9 .. 4e-9, always run): the values are still the exported filter's NIS
     run.native_runs += 1
-    pp, info = sklearn_native.transform_problems(run.seed + 1, 5, 2, 1, None, noise_scale=2e-9)
+    pp, info = sklearn_native.transform_problems(run.seed + 1, 5, 2, 1, None, noise_scale=2e-9, calibrated=True)  # (a calibrated model, too)
     run.bounded.append({"what": "native: transform / mahalanobis / score of an estimator whose process and sensor variances are of order 1e-9 vs the exported filter run by hand", "bound": "1 estimator x 5 rows", "failures": len(pp), "counted_as_proved": False})
     for p in pp[:1]:
-        inp = {"seed": run.seed + 1, "rows": 5, "n_sensors": 2, "controls": 1, "k_edit": None, "noise_scale": 2e-9}
+        inp = {"seed": run.seed + 1, "rows": 5, "n_sensors": 2, "controls": 1, "k_edit": None, "noise_scale": 2e-9, "calibrated": True}
         problems.append((p, inp))
         run.findings.append(Finding("C16.py.native_precise_sensors", "tiny-variance", f"variances of order 1e-9: {p}", {"language": "python", "inputs": inp, "oracle_verdict": p}, True))
+    # a two-reading sensor whose readings live at scales 1e-8 apart (innovation covariance with condition number ~1e16, always run)
+    run.native_runs += 1
+    dp, info = sklearn_native.transform_problems(run.seed + 2, 5, 2, 1, None, disparate=True)
+    run.bounded.append({"what": "native: transform / mahalanobis / score with a sensor whose two readings live at scales 1e-8 apart (S positive definite, condition number ~1e16) vs the exported filter run by hand with the full inverse", "bound": "1 estimator x 5 rows", "failures": len(dp), "counted_as_proved": False})
+    for p in dp[:1]:
+        inp = {"seed": run.seed + 2, "rows": 5, "n_sensors": 2, "controls": 1, "k_edit": None, "disparate": True}
+        problems.append((p, inp))
+        run.findings.append(Finding("C16.py.native_disparate_scales", "ill-conditioned", f"readings at scales 1e-8 apart: {p}", {"language": "python", "inputs": inp, "oracle_verdict": p}, True))
     # stateful: the same estimator transformed, reconfigured through set_params, transformed again (always run)
     run.native_runs += 1
     seq, info = sklearn_native.transform_sequence_problems(run.seed)
@@ -91,6 +99,6 @@ def replay_file(payload):
         p, info = sklearn_native.transform_sequence_problems(i.get("seed", 0))
         print("replay C16 (stateful sequence):", p[:2] or "every step equals the hand-run of the exported filter")
         return not p
-    p, info = sklearn_native.transform_problems(i["seed"], i["rows"], i["n_sensors"], i["controls"], i.get("k_edit"), integer_data=i.get("integer_data", False), config_extra=i.get("config_extra"), noise_scale=i.get("noise_scale", 1.0))
+    p, info = sklearn_native.transform_problems(i["seed"], i["rows"], i["n_sensors"], i["controls"], i.get("k_edit"), integer_data=i.get("integer_data", False), config_extra=i.get("config_extra"), noise_scale=i.get("noise_scale", 1.0), disparate=i.get("disparate", False), calibrated=i.get("calibrated", False))
     print("replay C16:", p[:3] or "transform / mahalanobis / score equal the hand-run filter's NIS")
     return not p
